@@ -120,6 +120,15 @@ func (x *Exec) convert(st *State, call *ast.CallExpr, to types.Type) Value {
 		x.eng.assume("int->float64 conversions are exact (|i| < 2^53)")
 		return sc(ToReal(t))
 	case isFloat(to) && isFloat(from):
+		// narrowing to float32 rounds: an uninterpreted function of the value, never the identity (float64(float32(x)) != x)
+		if tb, ok := to.Underlying().(*types.Basic); ok && tb.Kind() == types.Float32 {
+			if fb, ok := from.Underlying().(*types.Basic); !ok || fb.Kind() != types.Float32 {
+				t := asTerm(v)
+				name := "round32"
+				x.eng.declareFun(name+"_"+sortTag(t.Sort), []string{t.Sort}, t.Sort)
+				return sc(App(t.Sort, name+"_"+sortTag(t.Sort), t))
+			}
+		}
 		return v
 	case isInt(to) && isFloat(from):
 		t := asTerm(v)
